@@ -90,6 +90,7 @@ class MQRun:
         self.counter_fail = []
         self.exhausted = False
         self.in_tx = None        # packet between the start of its transmission and its departure (from the taps)
+        self.peers = []          # MQRuns of other scheduler instances living in the same Environment (they may join during the run)
 
     # -- public-state readers -------------------------------------------------------------------
     def phase(self):
@@ -164,22 +165,40 @@ class MQRun:
 
     # -- main loop ------------------------------------------------------------------------------
     def run(self, max_steps=40000):
-        env, s = self.env, self.sched
+        """steps the kernel; every scheduler instance of the group (this one and its `peers`, some of which are built
+        during the run) reads its own progress off its own public state before and after each kernel step and keeps its
+        own action / observation / log streams"""
+        env = self.env
         steps = 0
-        while env.peek() < INF and steps < max_steps:
+        while env.peek() < INF and steps < max_steps * (1 + len(self.peers)):
             steps += 1
             t = env.peek()
-            if t > env.now:
-                self.acts.append(f'tick {bits(t)}')
-                self.obs.append(f'tick - | {self.snap(now=t)}')
-            tgt0, ph0 = s.proc.target, self.phase()
-            hol0 = dict(getattr(s, 'head_of_line', {}))
-            def0 = dict(getattr(s, 'deficit', {}))
-            self.step_outs = []
-            for m in self.monitors:
-                m[2] = self._nsamples(m[0])
+            group = [self] + list(self.peers)
+            for g in group:
+                g._pre(t)
             with quiet():
                 env.step()
+            for g in group:
+                g._post()
+        self.exhausted = steps >= max_steps * (1 + len(self.peers))
+        for g in self.peers:
+            g.exhausted = self.exhausted
+        return self
+
+    def _pre(self, t):
+        env, s = self.env, self.sched
+        if t > env.now:
+            self.acts.append(f'tick {bits(t)}')
+            self.obs.append(f'tick - | {self.snap(now=t)}')
+        self._before = (s.proc.target, self.phase(), dict(getattr(s, 'head_of_line', {})), dict(getattr(s, 'deficit', {})))
+        self.step_outs = []
+        for m in self.monitors:
+            m[2] = self._nsamples(m[0])
+
+    def _post(self):
+        env, s = self.env, self.sched
+        tgt0, ph0, hol0, def0 = self._before
+        if True:
             tgt1, ph1 = s.proc.target, self.phase()
             label = None
             if ph0 == 'I' and tgt1 is not tgt0:
@@ -234,8 +253,6 @@ class MQRun:
                     self.obs.append('sample samples ' + ','.join(f'{f}:{vals[f][0]}:{vals[f][1]}' for f in flows if f in vals)
                                     + f' | {self.snap()}')
                     self.samples.append((env.now, m[1], vals, self.truth(), s.packet_in_service, self.phase(), self.in_tx))
-        self.exhausted = steps >= max_steps
-        return self
 
 
 def make_packet(env, pid, flow, size):
@@ -251,49 +268,144 @@ def source(env, run, script, counter):
             run.sched.put(make_packet(env, counter[0], flow, size))
 
 
-def run_impl(c, budget=20.0):
-    """run case `c` on the real scheduler; returns the MQRun"""
-    env = Environment()
+def build_instance(env, c, counter):
+    """the scheduler of (sub-)case `c` with its sources and monitors in `env`; returns its MQRun (not yet run)"""
     with quiet():
         sched = build(env, c)
     run = MQRun(env, sched, c)
-    counter = [0]
+    for flow, size in c.get('pre', []):      # calls of put() before the scheduler's loop has run
+        counter[0] += 1
+        with quiet():
+            sched.put(make_packet(env, counter[0], flow, size))
+    for script in c['sources']:
+        env.process(source(env, run, script, counter))
+    for mc in c.get('monitors', []):
+        periods = list(mc['periods'])
+        def dist(periods=periods):
+            return periods.pop(0) if periods else INF
+        mon = Monitor(env, sched, dist, mc['included'])
+        run.add_monitor(mon, mc['included'])
+    return run
+
+
+def run_impl(c, budget=20.0):
+    """run case `c` on the real scheduler - and, next to it in the same Environment, the peer schedulers of its group
+    (`c['peers']`: built at the start, or, with `at`, at that simulated instant by a process of the harness); returns the
+    MQRun of the scheduler under test (the peers' runs in `.peers`, in the order of `c['peers']`)"""
+    env = Environment()
+    peers = c.get('peers') or []
+    slots = [None] * len(peers)
     def on_alarm(signum, frame):
         raise TimeoutError(f'the scheduler loop did not yield for {budget:g} s of CPU time (it spins)')
     # CPU time of this process, not wall time: a busy machine must not look like a spinning scheduler
     old = signal.signal(signal.SIGPROF, on_alarm)
     signal.setitimer(signal.ITIMER_PROF, budget)
+    run = None
     try:
-        for flow, size in c.get('pre', []):      # calls of put() before the kernel has run anything
-            counter[0] += 1
-            with quiet():
-                sched.put(make_packet(env, counter[0], flow, size))
-        for script in c['sources']:
-            env.process(source(env, run, script, counter))
-        for mc in c.get('monitors', []):
-            periods = list(mc['periods'])
-            def dist(periods=periods):
-                return periods.pop(0) if periods else INF
-            mon = Monitor(env, sched, dist, mc['included'])
-            run.add_monitor(mon, mc['included'])
+        def mk(j):
+            slots[j] = build_instance(env, peers[j], [0])
+            if run is not None:
+                run.peers.append(slots[j])
+        def later(j):
+            yield env.timeout(peers[j]['at'])
+            mk(j)
+        for j, pc in enumerate(peers):
+            if pc.get('first') and not pc.get('at'):
+                mk(j)
+        run = build_instance(env, c, [0])
+        run.peers = [r for r in slots if r is not None]
+        for j, pc in enumerate(peers):
+            if pc.get('at'):
+                env.process(later(j))
+            elif not pc.get('first'):
+                mk(j)
         run.run()
     except Exception as x:      # the properties say the run never raises
+        if run is None:
+            raise
         run.raised = f'{type(x).__name__}: {x}'
         run.exhausted = False
     finally:
         signal.setitimer(signal.ITIMER_PROF, 0)
         signal.signal(signal.SIGPROF, old)
+    run.peers = []
+    for j, pc in enumerate(peers):
+        if slots[j] is None:            # never built (the run ended before): an empty record
+            slots[j] = MQRun.__new__(MQRun)
+            slots[j].__dict__.update(case=pc, kind=pc['kind'], acts=[], obs=[], log=[], arrivals=[], departures=[], starts=[], samples=[],
+                                     deficit_log=[], counter_fail=[], raised=None, exhausted=False, peers=[], sched=None)
+        if run.raised:
+            slots[j].raised, slots[j].exhausted = run.raised, False
+        run.peers.append(slots[j])
     return run
+
+
+def units(c, r):
+    """[(label, sub-case, MQRun, replayed through the model?)]: the scheduler under test and the peers of its group"""
+    out = [('', c, r, True)]
+    peers = c.get('peers') or []
+    for j, (pc, pr) in enumerate(zip(peers, r.peers)):
+        tab = pc['flows'] if pc['kind'] == 'rr' else pc['table']
+        how = (f'built at t={pc["at"]} from the table of the first' if pc.get('at') else
+               f'{"flows" if pc["kind"] == "rr" else "table"} {tab}' + (f' map {pc["map"]}' if pc.get('map') else ''))
+        out.append((f'instance {j + 2} of {len(peers) + 1} {pc["kind"].upper()} schedulers in one Environment ({how}): ',
+                    dict(pc, cid=f"{c['cid']}.p{j + 1}"), pr, not pc.get('at')))
+    return out
+
+
+def digest(r):
+    """what the properties speak about, for the comparison of two executions of one case"""
+    return {'arrivals': [(t, p.packet_id) for t, p in r.arrivals], 'transmission starts': [(t, p.packet_id) for t, p in r.starts],
+            'departures': [(t, p.packet_id) for t, p in r.departures],
+            'monitor samples': [(t, inc, sorted(vals.items())) for t, inc, vals, *_ in r.samples]}
 
 
 # ---- case generator --------------------------------------------------------------------------------
 
-def gen_case(rng, cid, kind, backlog=False):
+def flows_of(c):
+    if c['kind'] == 'rr':
+        return list(c['flows'])
+    return [f for f, _ in c['map']] if c.get('map') else [k for k, _ in c['table']]
+
+
+def gen_group(rng, cid, kind, backlog=False, share=0.3):
+    """the scheduler under test and, in a share of the cases, PEER schedulers of the same kind alive in the same Environment:
+    (1) one with a DIFFERENT table over the SAME flow ids (SP: mostly the opposite priorities; RR: another declaration order;
+    WRR/DRR: other weights / another class map), busy at the same time with its own traffic - replayed through the model as a
+    case of its own; (2) now and then a second scheduler built LATER (at a positive simulated instant, while the first one is
+    at work) from a table equal to the first one's - outside the replay (the LTS starts at time 0), judged by the direct
+    oracles.  The properties speak of ONE scheduler: its table, its queues, its credits."""
+    c = gen_case(rng, cid, kind, backlog)
+    if rng.random() >= share:
+        return c
+    c['peers'] = []
+    x = rng.random()
+    if x < 0.8:
+        p = gen_case(rng, f'{cid}.p1', kind, backlog=rng.random() < 0.5, like=c)
+        p['first'] = rng.random() < 0.3            # constructed before the scheduler under test
+        c['peers'].append(p)
+    if x >= 0.6:
+        t = gen_case(rng, f'{cid}.t', kind, backlog=rng.random() < 0.5, like=c)
+        for k in ('rate', 'table', 'flows', 'map'):
+            if k in c:
+                t[k] = json.loads(json.dumps(c[k]))
+        unit = 0.5 if c['rate'] >= 1000 else 1
+        t['at'] = rng.choice([0.5, 1, 2, 3, 5, 10, 1.5]) * unit
+        t['monitors'] = t['monitors'][:1]
+        c['peers'].append(t)
+    return c
+
+
+def gen_case(rng, cid, kind, backlog=False, like=None):
     """a random configuration + workload for scheduler `kind`; `backlog`: front-load arrivals so that several
-    classes stay backlogged for a long stretch"""
+    classes stay backlogged for a long stretch; `like`: another case whose flow ids this one shares"""
     c = {'cid': str(cid), 'kind': kind}
     nfl = rng.randint(2, 6)
     flows = rng.sample(range(0, 10), nfl)
+    if like is not None:
+        flows = flows_of(like)
+        rng.shuffle(flows)
+        nfl = len(flows)
     big = kind == 'drr' and rng.random() < 0.85
     if big:
         c['rate'] = rng.choice([8000.0, 8000.0, 8000, 1e6, 12000.0])
@@ -304,7 +416,12 @@ def gen_case(rng, cid, kind, backlog=False):
         sizes = rng.choice([[1, 2, 3, 5], [1, 1, 2], [1, 2, 3, 5, 10, 40]])
         unit = 1
     c['map'] = None
-    if kind == 'sp':
+    if kind == 'sp' and like is not None and rng.random() < 0.6:
+        top = max(p for _, p in like['table']) + 1
+        c['table'] = [[f, top - p] for f, p in like['table']]        # the opposite order of urgency over the same flow ids
+        if rng.random() < 0.5:
+            rng.shuffle(c['table'])
+    elif kind == 'sp':
         c['table'] = [[f, rng.randint(1, rng.choice([2, 3, 5, 9]))] for f in flows]
         if rng.random() < 0.3:
             c['map'] = [[f, rng.randint(0, 3)] for f in flows]
@@ -358,14 +475,17 @@ def gen_case(rng, cid, kind, backlog=False):
 
 
 def replay(cases):
-    """run the cases on the implementation and through the model; returns (runs, model outputs, disagreements)"""
+    """run the cases on the implementation and through the model; returns (runs, model outputs, disagreements).
+    The peer schedulers of a group that were built at the start are replayed as cases of their own (`<cid>.p<j>`)."""
     from vlib.util import run_driver, split_cases
     runs, text = {}, []
     stuck = 0
     for i, c in enumerate(cases):
         r = run_impl(c, budget=20.0 if stuck == 0 else 3.0)
         runs[c['cid']] = r
-        text.append(header(c)); text += r.acts; text.append('END')
+        for _, uc, ur, replayed in units(c, r):
+            if replayed:
+                text.append(header(uc)); text += ur.acts; text.append('END')
         if r.exhausted or (r.raised or '').startswith('TimeoutError'):
             stuck += 1
             if stuck >= 6:
@@ -376,13 +496,16 @@ def replay(cases):
     model = split_cases(run_driver('mq', '\n'.join(text) + '\n'))
     dis = []
     for c in cases:
-        a, b = runs[c['cid']].obs, model.get(c['cid'])
-        if a != b:
-            b = b or []
-            i = next((i for i in range(max(len(a), len(b))) if i >= len(a) or i >= len(b) or a[i] != b[i]), 0)
-            dis.append({'case': c, 'detail': f'line {i} (action `{runs[c["cid"]].acts[i] if i < len(runs[c["cid"]].acts) else None}`): '
-                                             f'impl `{a[i] if i < len(a) else None}` model `{b[i] if i < len(b) else None}`',
-                        'impl': a[max(0, i - 20):i + 5], 'model': b[max(0, i - 20):i + 5]})
+        for label, uc, ur, replayed in units(c, runs[c['cid']]):
+            if not replayed:
+                continue
+            a, b = ur.obs, model.get(uc['cid'])
+            if a != b:
+                b = b or []
+                i = next((i for i in range(max(len(a), len(b))) if i >= len(a) or i >= len(b) or a[i] != b[i]), 0)
+                dis.append({'case': c, 'detail': f'{label}line {i} (action `{ur.acts[i] if i < len(ur.acts) else None}`): '
+                                                 f'impl `{a[i] if i < len(a) else None}` model `{b[i] if i < len(b) else None}`',
+                            'impl': a[max(0, i - 20):i + 5], 'model': b[max(0, i - 20):i + 5]})
     return runs, model, dis
 
 
@@ -404,7 +527,7 @@ def coincidences(run):
     return before, after
 
 
-def evaluate(cases, oracles, nontrivial, rule):
+def evaluate(cases, oracles, nontrivial, rule, again_n=40):
     """replay `cases` through implementation and model, apply the direct `oracles` (functions (case, run) -> (fails, stats) or
     fails); returns the dict a check's run(ctx) returns"""
     runs, model, dis = replay(cases)
@@ -442,6 +565,24 @@ def evaluate(cases, oracles, nontrivial, rule):
                 f['case'] = c
                 f['trace'] = r.obs[:300]
                 orc.append(f)
+        # the other schedulers of the group: each judged by the same oracles on its own history only
+        for label, uc, ur, replayed in units(c, r)[1:]:
+            hist['peer schedulers: ' + ('built later from an equal table (oracle-only)' if uc.get('at') else 'other table over the same flow ids (replayed)')] += 1
+            hist['peer schedulers: packets transmitted'] += len(ur.departures)
+            hist['peer schedulers: monitor samples'] += len(ur.samples)
+            for o in oracles:
+                res = o(uc, ur)
+                fails, st = res if isinstance(res, tuple) else (res, {})
+                for k in ('multi_level_decisions', 'multi_class_decisions'):
+                    if st.get(k):
+                        hist[f'peer schedulers: {k}'] += st[k]
+                for f in fails:
+                    f['what'] = label + f['what']
+                    f['case'] = c
+                    f['trace'] = ur.obs[:300]
+                    orc.append(f)
+        if c.get('peers'):
+            hist['cases with peer schedulers in the same Environment'] += 1
         key = json.dumps({k: v for k, v in c.items() if k != 'cid'}, sort_keys=True, default=str)
         nt = nontrivial(c, r, st_case, (b, a))
         if nt and key not in distinct:
@@ -450,9 +591,24 @@ def evaluate(cases, oracles, nontrivial, rule):
                 samples.append({'config': {k: v for k, v in c.items() if k not in ('sources',)}, 'sources': c['sources'],
                                 'actions': r.acts[:40]})
         distinct.add(key)
+    # the same cases executed again later in this process (fresh Environment, tables built anew from equal contents): arrivals,
+    # transmission starts, departures and Monitor samples are functions of the configuration and the workload
+    again = 0
+    for c in cases[:again_n]:
+        r1, r2 = runs[c['cid']], run_impl(c)
+        again += 1
+        for (label, uc, u1, _), (_, _, u2, _) in zip(units(c, r1), units(c, r2)):
+            d1, d2 = digest(u1), digest(u2)
+            if d1 != d2 or u1.raised != u2.raised:
+                k = next((k for k in d1 if d1[k] != d2[k]), 'outcome')
+                orc.append({'what': f'{uc["kind"]}: {label}the same case executed a second time in this process (after {len(cases)} other cases) gives other {k}: '
+                                    f'first {str(d1.get(k, u1.raised))[:200]}, again {str(d2.get(k, u2.raised))[:200]}',
+                            'signature': f'{uc["kind"]}-second-execution-differs', 'case': c, 'trace': u2.obs[:300]})
+                break
     cov = {'evaluations': len(cases), 'distinct_nontrivial': nontriv, 'rule': rule, 'samples': samples,
-           'traces_validated_against_impl': len(cases) - len(dis),
-           'action_lines_replayed': sum(len(r.acts) for r in runs.values()),
+           'traces_validated_against_impl': len(cases) - len({d['case']['cid'] for d in dis}),
+           'cases_executed_a_second_time': again,
+           'action_lines_replayed': sum(len(ur.acts) for c in cases for _, _, ur, rp in units(c, runs[c['cid']]) if rp),
            'operation_histogram': dict(sorted(hist.items())), 'oracle_statistics': dict(sorted(stats_sum.items()))}
     return {'coverage': cov, 'disagreements': dis, 'oracle_failures': orc}
 
